@@ -112,6 +112,7 @@ func genTables(c *Ctx, verifDir string) error {
 var verifDirGlobal string
 
 func runC10(c *Ctx, r *Run) {
+	r.Rule("PARAM-1", "security and interval parameters have their reviewed values")
 	r.Rule("FS-1", "transcript completeness: every field of each struct parameter of challenge() and every other non-context parameter is absorbed by hash.WriteAny (arrays element-wise over the whole array)")
 	r.Rule("FS-3", "prover/verifier symmetry: both sides call the package's challenge function, on the caller-supplied context hash")
 	r.Rule("OB-V1", "the verifier rejects when challenge() fails and uses the challenge it returned")
@@ -403,6 +404,88 @@ func runC10(c *Ctx, r *Run) {
 		}
 	}
 
+	// ---- PARAM-1: the interval and size parameters the range predicates and samplers are built from
+	if pp := c.PkgRel("internal/params"); pp != nil {
+		want := map[string]int64{
+			"SecParam": 256, "SecBytes": 32, "OTParam": 128, "OTBytes": 16, "StatParam": 80,
+			"L": 256, "LPrime": 1280, "Epsilon": 512, "LPlusEpsilon": 768, "LPrimePlusEpsilon": 1792,
+			"BitsIntModN": 2048, "BytesIntModN": 256, "BitsBlumPrime": 1024, "BitsPaillier": 2048, "BytesPaillier": 256, "BytesCiphertext": 512,
+		}
+		var names []string
+		for n := range want {
+			names = append(names, n)
+		}
+		sort.Strings(names)
+		for _, n := range names {
+			o, ok := pp.Types.Scope().Lookup(n).(*types.Const)
+			if !ok {
+				r.Unresolved("PARAM-1", "internal/params."+n)
+				continue
+			}
+			v, _ := constValInt(o)
+			r.Check("PARAM-1", "internal/params."+n, c.Pos(o.Pos()), v == want[n], fmt.Sprintf("%s = %d as in CGGMP21 section 6 / KOS15 (relations L = l, L' = 5l, eps = 2l, N of 8l bits)", n, want[n]),
+				fmt.Sprintf("%s is %d, the reviewed value is %d: every range predicate, sampler and slack derived from it moves; proofs stay self-consistent (tests pass) but the completeness/soundness margins of the paper no longer hold", n, v, want[n]))
+		}
+	} else {
+		r.Unresolved("PARAM-1", "internal/params")
+	}
+	// the interval predicates and samplers: the bit bound each one applies is the paper's
+	{
+		predicates := map[string]int64{"IsInIntervalLEps": 768, "IsInIntervalLPrimeEps": 1792, "IsInIntervalLEpsPlus1RootN": 1793}
+		var pn []string
+		for n := range predicates {
+			pn = append(pn, n)
+		}
+		sort.Strings(pn)
+		for _, n := range pn {
+			fn := c.LookupFunc("pkg/math/arith", n)
+			if fn == nil {
+				r.Unresolved("PARAM-1", "pkg/math/arith."+n)
+				continue
+			}
+			r.Analysed(c.FuncName(fn))
+			got, op := int64(-1), ""
+			allInstrs(fn, func(in ssa.Instruction) {
+				bo, ok := in.(*ssa.BinOp)
+				if !ok {
+					return
+				}
+				if call, isCall := stripConv(bo.X).(*ssa.Call); isCall {
+					if o := calleeObj(call); o != nil && o.Name() == "TrueLen" {
+						if k, isK := constInt(bo.Y); isK {
+							got, op = k, bo.Op.String()
+						}
+					}
+				}
+			})
+			r.Check("PARAM-1", "pkg/math/arith."+n+"|bound", c.Pos(fn.Pos()), got == predicates[n] && op == "<=", fmt.Sprintf("accepts exactly the integers of at most %d bits (TrueLen <= %d)", predicates[n], predicates[n]),
+				fmt.Sprintf("the predicate compares TrueLen %s %d, the reviewed bound is <= %d: responses outside the paper's range are accepted (soundness: e.g. arbitrary factor sizes in zkfac) or honest ones refused", op, got, predicates[n]))
+		}
+		samplers := map[string]int64{"IntervalL": 256, "IntervalLPrime": 1280, "IntervalEps": 512, "IntervalLEps": 768, "IntervalLPrimeEps": 1792,
+			"IntervalLN": 2304, "IntervalLN2": 4352, "IntervalLEpsN": 2816, "IntervalLEpsN2": 4864, "IntervalLEpsRootN": 1792}
+		var sn []string
+		for n := range samplers {
+			sn = append(sn, n)
+		}
+		sort.Strings(sn)
+		for _, n := range sn {
+			fn := c.LookupFunc("pkg/math/sample", n)
+			if fn == nil {
+				r.Unresolved("PARAM-1", "pkg/math/sample."+n)
+				continue
+			}
+			r.Analysed(c.FuncName(fn))
+			got := int64(-1)
+			for _, call := range callsNamed(fn, "sampleNeg") {
+				if k, ok := constInt(call.Call.Args[len(call.Call.Args)-1]); ok {
+					got = k
+				}
+			}
+			r.Check("PARAM-1", "pkg/math/sample."+n+"|bits", c.Pos(fn.Pos()), got == samplers[n], fmt.Sprintf("samples from ±2^%d", samplers[n]),
+				fmt.Sprintf("the sampler draws %d bits, the reviewed width is %d: masks no longer hide the witness (too narrow) or honest responses leave the verifier's range (too wide)", got, samplers[n]))
+		}
+	}
+	r.Require("PARAM-1", 29)
 	r.Require("FS-1", 100)
 	r.Require("FS-3", 40)
 	r.Require("OB-V1", 28)
